@@ -291,22 +291,35 @@ Qed.
 
 (* ------------------------------------------------------------------ OraPool *)
 
-Lemma ora_connect_own : forall q cx0 pid0 fk fresh,
+(* OraPool.connect, every way it can end (SessionPool creation or acquire may raise): the recorded pid stays the creator of the
+   pool it belongs to, and a connection that is handed out comes from a pool of the calling process *)
+Lemma ora_connect_own : forall pool_ok acquire_ok q cx0 pid0 fk fresh,
   creator cx0 = pid0 -> creator fresh = q ->
-  let '(c, cx', pid', fk', isnew) := ora_connect q cx0 pid0 fk fresh in
-  creator c = q /\ creator cx' = pid' /\ pid' = q.
+  let '(c, cx', pid', fk', isnew) := ora_connect pool_ok acquire_ok q cx0 pid0 fk fresh in
+  creator cx' = pid' /\ (forall k, c = Some k -> creator k = q /\ pid' = q).
 Proof.
-  intros q cx0 pid0 fk fresh Hcx Hfresh. unfold ora_connect, acquire.
+  intros pool_ok acquire_ok q cx0 pid0 fk fresh Hcx Hfresh. unfold ora_connect, acquire.
   destruct (pid0 =? q) eqn:E; cbn.
-  - apply Z.eqb_eq in E. subst. auto.
-  - auto.
+  - apply Z.eqb_eq in E. destruct acquire_ok; (split; [exact Hcx|]); intros k Hk; inversion Hk; subst; auto.
+  - destruct pool_ok; [destruct acquire_ok|]; (split; [auto|]); intros k Hk; inversion Hk; subst; auto.
 Qed.
 
 Lemma ora_connect_after_fork : forall q p cx0 fk fresh,
-  p <> q -> ora_connect q cx0 p fk fresh = (acquire fresh, fresh, q, fk ++ [(cx0, p)], true).
+  p <> q -> ora_connect true true q cx0 p fk fresh = (Some (acquire fresh), fresh, q, fk ++ [(cx0, p)], true).
 Proof.
   intros q p cx0 fk fresh Hne. unfold ora_connect.
   destruct (p =? q) eqn:E; [apply Z.eqb_eq in E; contradiction|reflexivity].
+Qed.
+
+(* creating the child's SessionPool fails: the recorded pid stays the parent's, so the next connect tries again - the parent's pool is
+   never used by the child *)
+Lemma ora_connect_after_fork_pool_fails_then_retry : forall q p cx0 fk fresh acquire_ok,
+  p <> q ->
+  ora_connect false acquire_ok q cx0 p fk fresh = (None, cx0, p, fk ++ [(cx0, p)], false)
+  /\ ora_connect true true q cx0 p (fk ++ [(cx0, p)]) fresh = (Some (acquire fresh), fresh, q, (fk ++ [(cx0, p)]) ++ [(cx0, p)], true).
+Proof.
+  intros q p cx0 fk fresh acquire_ok Hne. unfold ora_connect.
+  destruct (p =? q) eqn:E; [apply Z.eqb_eq in E; contradiction|]. split; reflexivity.
 Qed.
 
 (* ------------------------------------------------------------------ the fork point where the property fails *)
